@@ -92,6 +92,7 @@ def tasks(tier):
     for pat in itertools.product((True, False), repeat=4):
         ts.append(("job %s" % "".join("T" if p else "F" for p in pat), "run_job", dict(pattern=list(pat))))
     ts.append(("job without file", "run_job", dict(pattern=[True, True, True, True], filename=None)))
+    ts.append(("job mesh source", "run_job_mesh", {}))
     ts.append(("default data", "run_default_data", {}))
     ts.append(("tools.save", "run_save", {}))
     ts.append(("mesh write/read", "run_mesh_io", {}))
@@ -199,6 +200,71 @@ def run_job(col, pattern, filename="result.xdmf"):
     finish_info(col, it)
 
 
+def run_job_mesh(col):
+    """which mesh is written to the result file: the given one, else the global field's (x0), else the first item's"""
+    for variant in ("x0", "first item"):
+        it = new_interp()
+        it.lazy_generators = True
+        store = Store()
+        it.externals.update(meshio_summary(store))
+        log = store.events
+        fc, n, dof0, dof1, ext0, regs = scenario.make_problem(it)
+
+        class Res:
+            pass
+
+        def newton(interp, fn, args, kwargs):
+            r = Res()
+            r.success = True
+            r.x = interp.call_method(fc, "copy", [])
+            r.fnorms = [0]
+            return r
+
+        it.call_hooks[("felupe.tools._newton", "newtonrhapson")] = newton
+        it.call_hooks[("felupe.dof._tools", "partition")] = lambda interp, fn, args, kwargs: (dof0, dof1)
+        it.call_hooks[("felupe.dof._tools", "apply")] = lambda interp, fn, args, kwargs: ext0
+        Step = it.get("felupe.mechanics._step:Step")
+        Job = it.get("felupe.mechanics._job:Job")
+        itemA = scenario.FakeItem([], "A", fc, n)
+
+        class MeshIO:
+            def __init__(self, tag):
+                self.points, self.cells = "POINTS-" + tag, "CELLS-" + tag
+
+        class FMesh:
+            def __init__(self, tag):
+                self.tag = tag
+
+            def as_meshio(self, **kw):
+                return MeshIO(self.tag)
+
+        class FReg:
+            def __init__(self, tag):
+                self.mesh = FMesh(tag)
+
+        class Glob:
+            region = FReg("global")
+
+        class ItemField:
+            region = FReg("item")
+
+        itemA.field = ItemField()
+        steps = [it.call(Step, [], dict(items=[itemA], ramp={itemA: [sym("s0")]}, boundaries={}))]
+        job = it.call(Job, [steps], {})
+        kw = dict(verbose=False, filename="r.xdmf", point_data={}, cell_data={}, point_data_default=False, cell_data_default=False)
+        if variant == "x0":
+            kw["x0"] = Glob()
+        try:
+            it.call_method(job, "evaluate", [], kw)
+        except Exception as e:  # noqa -- the stand-in fields are not usable by the (scripted) solver path beyond the header
+            pass
+        hdr = [e for e in log if e[0] == "points_cells"]
+        want = "global" if variant == "x0" else "item"
+        col.add("C20.O1", "job mesh source (%s)" % variant, "the mesh written to the file is the global field's (x0) when one is given, else the first item's field's",
+                len(hdr) == 1 and hdr[0][1] == "POINTS-" + want, "mechanics/_job.py Job.evaluate: header %s" % (hdr[:1],))
+        finish_info(col, it)
+
+
 def run_default_data(col):
     """default point data = displacement of the first field padded to 3 columns; default per-cell deformation gradient = mean over the quadrature axis"""
     it = new_interp()
@@ -235,6 +301,11 @@ def run_save(col):
     rf = npmodel.to_obj(m.point_data["Reaction Force"]) if m is not None else None
     okk = rf is not None and rf.shape == U.shape and all(is_zero(P(rf[a, i]) - forces[2 * a + i]) for a in range(4) for i in range(2))
     col.add("C20.O3", "tools.save reaction forces", "'Reaction Force' is the first offset block of the force vector reshaped like the displacements, unchanged", okk)
+    # a later call without forces writes no reaction forces (nothing is kept from an earlier call)
+    it.call(save, [ra, fc], dict(filename="second.vtu"))
+    m2 = store.files.get("second.vtu")
+    col.add("C20.O3", "tools.save second call", "the point data of a call hold the displacements and what that call was given, nothing from an earlier call",
+            m2 is not None and sorted(m2.point_data) == ["Displacements"], "tools/_save.py save: point data keys %s" % (sorted(m2.point_data) if m2 is not None else None))
     col.add("C20.O3", "tools.save mesh", "points, cells and cell type of the region's mesh and the given cell data are passed through", m is not None and m.points is ra.mesh.points and m.cells[0].type == "quad"
             and m.cells[0].data is ra.mesh.cells and m.cell_data == {"cd": ["X"]})
     finish_info(col, it)
@@ -300,6 +371,10 @@ def run_container(col):
                 for k in range(c0.shape[1]):
                     if cn[c, k] >= cpo.shape[0] or any(not is_zero(P(cpo[cn[c, k], i]) - P(allp[c0[c, k], i])) for i in range(2)):
                         bad.append((c, k))
+        # the contained meshes are handed out as Mesh objects: their derived attributes describe the point array they refer to
+        stale = [(k, it.getattr(m, "npoints"), int(np.asarray(it.getattr(m, "points")).shape[0])) for k, m in enumerate(meshes) if it.getattr(m, "npoints") != np.asarray(it.getattr(m, "points")).shape[0]]
+        col.add("C20.O5", "MeshContainer(merge=%s) consistent meshes" % merge, "every contained mesh's npoints equals the number of rows of the shared point array it refers to", not stale,
+                "mesh/_container.py MeshContainer.append: (mesh, npoints, rows) %s" % stale)
         npts = cpo.shape[0]
         col.add("C20.O5", "MeshContainer(merge=%s) cells" % merge, "cell ids are shifted by the number of points appended before (and remapped when merging): every corner keeps its coordinates",
                 not bad and npts == (6 if merge else 8), "points %d bad %s" % (npts, bad))
